@@ -12,7 +12,7 @@ for f in sys.argv[1:]:
         d, chk, tier, rc, secs, viol = m.groups()
         runs.setdefault(os.path.basename(d), {})[chk] = {"tier": tier, "exit": int(rc), "seconds": int(secs), "violations": int(viol)}
 rows = []
-for d in sorted(os.listdir(os.path.join(ROOT, "seeded"))):
+for d in sorted(x for x in os.listdir(os.path.join(ROOT, "seeded")) if not x.startswith("_")):
     mp = os.path.join(ROOT, "seeded", d, "meta.json")
     meta = json.load(open(mp))
     r = dict(meta.get("runs") or {})
@@ -26,5 +26,5 @@ for d in sorted(os.listdir(os.path.join(ROOT, "seeded"))):
     rows.append("| %s | %s | %s |" % (d, ", ".join(cell(c) for c in sorted(r, key=lambda c: (c != own, c))) or "not run", (meta.get("summary") or "")[:150]))
 print("| seeded change | checks run (bold = VIOLATION, exit 1) | what it is |\n|---|---|---|")
 print("\n".join(rows))
-n = len(rows); caught = sum(1 for d in os.listdir(os.path.join(ROOT, "seeded")) if json.load(open(os.path.join(ROOT, "seeded", d, "meta.json"))).get("detected_by"))
+n = len(rows); caught = sum(1 for d in os.listdir(os.path.join(ROOT, "seeded")) if not d.startswith("_") and json.load(open(os.path.join(ROOT, "seeded", d, "meta.json"))).get("detected_by"))
 print("\n%d of %d seeded changes are reported as VIOLATION by at least one check (quick tier)." % (caught, n))
